@@ -24,6 +24,8 @@ TEXT = {
          "Rocq proof of the accounting fold + oracle on emitted bytes"),
  "C12": ("Theorems C12_failing_sink / C12_expansion_preserves_bits: for every call index k and every well-formed operation sequence, writing through a sink that fails at its k-th call returns Err(Sink) exactly when k lies inside the call sequence (never Panic), the accepted calls are the first k calls, and their bits are a prefix of the full bitstream; the expansion of API operations into required-method calls preserves the bits. Tied by the FAIL stream (verdict, accepted-call digest, accepted bit count) on streams with all subframe kinds, precomputed and not.",
          "Rocq proof: prefix property of the ideal bit string under truncation of the call sequence; fault-injection correspondence for every k class"),
+ "C14": ("Theorems C14_fill_equiv / C14_context_equiv / C14_bytes_roundtrip / C14_no_stale_data: for every buffer state, channel count, capacity, byte width 1..4 and block of in-range samples (negative extremes included) filling the frame buffer and the MD5/count context from packed little-endian bytes equals filling them from integers; the part of the buffer the encoder reads never depends on previous contents. Tied by the SRC stream (unit functions, and both delivery paths on identical data incl. oversized fills) and end-to-end by DLV.",
+         "Rocq proof: sign-extension/byte algebra and buffer non-interference; paired-delivery correspondence"),
 }
 NOTE = ("Trusted: Coq 8.16.1 kernel, extraction with ExtrOcamlBasic only, OCaml driver, Rust harness, tools/*.py, "
         "and the hand-written model of the named source files, which is tied to /repo by differential testing "
